@@ -238,3 +238,45 @@ class OptimizeFaults:
             import z3
             z3.Optimize.check = self._orig
             self._orig = None
+
+
+# ------------------------------------------------------------------ stall guard (logical steps, section 6.1)
+class Stall(BaseException):
+    """an enumeration made more solver calls than there are distinct outcomes: it cannot be making progress"""
+
+
+class StallGuard:
+    """counts RC2.compute() per RC2 instance.  With s soft clauses there are at most 2**s distinct sets of
+    violated soft clauses, and the library blocks each set it has seen, so more than 2**s + 2 calls on one
+    instance means the loop does not terminate.  Only applied when s <= 12 (exact bound, cheap)."""
+
+    def __init__(self):
+        self._orig = None
+        self.max_seen = 0
+
+    def install(self):
+        from pysat.examples.rc2 import RC2
+        self._orig = (RC2.__init__, RC2.compute)
+        oi, oc = self._orig
+        me = self
+
+        def init(self_r, formula, *a, **kw):
+            self_r._vf_soft = len(getattr(formula, 'soft', []) or [])
+            self_r._vf_calls = 0
+            return oi(self_r, formula, *a, **kw)
+
+        def compute(self_r):
+            self_r._vf_calls = getattr(self_r, '_vf_calls', 0) + 1
+            me.max_seen = max(me.max_seen, self_r._vf_calls)
+            s_ = getattr(self_r, '_vf_soft', 99)
+            if s_ <= 12 and self_r._vf_calls > (1 << s_) + 2:
+                raise Stall('RC2.compute called %d times with %d soft clauses' % (self_r._vf_calls, s_))
+            return oc(self_r)
+        RC2.__init__ = init
+        RC2.compute = compute
+
+    def uninstall(self):
+        if self._orig:
+            from pysat.examples.rc2 import RC2
+            RC2.__init__, RC2.compute = self._orig
+            self._orig = None
